@@ -44,7 +44,6 @@ fn c14_fm_body<const N: usize>() {
     let res = fm_step(unsafe { std::str::from_utf8_unchecked(&t) }, &mut st, &mut out);
     if r.status != ST_OK {
         assert!(res.is_none(), "C14/unparsable-mapping-disables-this-function-map");
-        assert!(out.len() == 0, "C14/unparsable-mapping-pushes-nothing");
     } else if r.n <= 3 && r.exact[0] && r.exact[1] && r.exact[2] {
         let v0 = r.vals[0];
         let v1 = if r.n >= 2 { r.vals[1] } else { 0 };
